@@ -30,7 +30,10 @@ META = {
             "transparency (a property of JAX tracing, not of MuJoCo code a Gallina model can express), put_data -> get_data field mapping, "
             "make_data vs put_data of a fresh MjData (same treedef, shapes, dtypes up to jax's int width for contact.geom, equal values on every leaf except the padding of "
             "INACTIVE contact slots, and forward() of both is identical; OBSERVATION recorded in the evidence: make_data pads contact.dist with 0 and contact.geom with -1 "
-            "where put_data pads with 1e10 and 0; only active contacts are compared).  NOT COVERED: plugin state (no plugin model can be built), warp / C++ back ends.",
+            "where put_data pads with 1e10 and 0; only active contacts are compared); put_data -> get_data on MjData with active contacts of condim 1/3/4/6 under both cones, a limit, a friction-loss dof "
+            "and an equality returns counts, every efc_* field and the contact fields unchanged; KNOWN findings C44-F1 (rows with an all-zero Jacobian dropped) and "
+            "C44-F2 (contacts with dist > 0 inside the margin dropped) are replayed in both tiers and reported under their signatures only when the loss is exactly "
+            "of that class.  NOT COVERED: plugin state (no plugin model can be built), warp / C++ back ends.",
     "note": "Trusted: Coq kernel; translate/mjxstate2v.py and translate/state2v.py (fail-closed readers); hand-written loop models "
             "Model/MjxState.v and Model/StateAPI.v; python driver c44_mjx.py with its own list of the 14 state fields; jax/numpy and the "
             "mujoco wheel 3.13.0 as the library MJX imports (MjModel container, XML parser, mjtState enum). Theorems closed under the global context.",
@@ -390,6 +393,16 @@ def run(ctx):
     else:
         sup["oracle_checks"] = orc["checks"]
         sup["oracle_notes"] = orc["notes"]
+        sup["known_finding_replays"] = orc.get("findings", [])
+        if "findings" not in orc:
+            ctx.broken.append(("oracle", "fixed replays of C44-F1 / C44-F2 did not run", "; ".join(orc["notes"])[:400]))
+        for fd in orc.get("findings", []):
+            if fd["lost"]:
+                # the narrow class goes under the KNOWN-finding signature; any other loss on these inputs is an ordinary violation
+                ctx.violation("impl_violation", {"oracle": "put_get_roundtrip", "mjcf": fd["mjcf"], "state": fd["state"]},
+                              expected="get_data(put_data(d)) returns the counts and constraint arrays of d", observed=fd["what"], theorem=None,
+                              signature={"site": "mjx get_data", "class": fd["cls"] if fd["exactly_this_class"] else "other-loss:" + fd["cls"]},
+                              note="fixed replay; exactly_this_class=%s" % fd["exactly_this_class"])
         for ch in orc["checks"]:
             if not ch["ok"]:
                 ctx.violation("impl_violation", {"oracle": ch["kind"], "model": ch["model"], "what": ch["what"],
